@@ -672,6 +672,92 @@ def gen_risky(rng, base_feats=None):
     return '\n'.join(out) + '\n'
 
 
+def gen_deep(rng):
+    """Complexity stress (C03: every proposal is delivered in time bounded by
+    a small function of the input size): one term nested 12-48 levels deep
+    through the first or the last argument, or one very wide term, over an
+    innermost term whose sort is known, unknown (application of an
+    uninterpreted function, undeclared symbol) or ill-formed."""
+    fam = rng.choice(['int', 'int', 'real', 'bv', 'bool', 'str', 'ite', 'let',
+                      'fun', 'wide', 'neg'])
+    depth = rng.choice([12, 16, 20, 24, 32, 48])
+    first = rng.random() < 0.6
+    decl = ['(declare-const x Int)', '(declare-const r Real)',
+            '(declare-const b (_ BitVec 8))', '(declare-const p Bool)',
+            '(declare-const s String)', '(declare-fun f (Int) Int)',
+            '(declare-fun fr (Int) Real)', '(declare-fun fb (Int) (_ BitVec 8))',
+            '(declare-fun fp (Int) Bool)', '(declare-fun fs (Int) String)',
+            '(define-fun dbl ((a Int)) Int (+ a a))']
+    inner_by_sort = {
+        'int': ['x', '(f x)', 'undeclared', '(f undeclared)', '(select ua 0)', '()'],
+        'real': ['r', '(fr x)', 'undeclared', '1.5'],
+        'bv': ['b', '(fb x)', 'undeclared', '#x0f'],
+        'bool': ['p', '(fp x)', 'undeclared', '(> (f x) 0)'],
+        'str': ['s', '(fs x)', 'undeclared', '"a"'],
+    }
+
+    def nest(op, t, other):
+        for _ in range(depth):
+            t = f'({op} {t} {other})' if first else f'({op} {other} {t})'
+        return t
+
+    if fam in ('int', 'real', 'bv', 'bool', 'str'):
+        op, other = {
+            'int': (rng.choice(['+', '-', '*']), rng.choice(['1', 'x'])),
+            'real': (rng.choice(['+', '-', '*', '/']), rng.choice(['1.0', 'r'])),
+            'bv': (rng.choice(['bvadd', 'bvand', 'bvor', 'bvmul']),
+                   rng.choice(['#x01', 'b'])),
+            'bool': (rng.choice(['and', 'or', '=>', 'xor']),
+                     rng.choice(['p', 'true'])),
+            'str': ('str.++', rng.choice(['"a"', 's'])),
+        }[fam]
+        t = nest(op, rng.choice(inner_by_sort[fam]), other)
+        rel = {'int': f'(> {t} 0)', 'real': f'(> {t} 0.0)',
+               'bv': f'(= {t} #x00)', 'bool': t,
+               'str': f'(= {t} s)'}[fam]
+    elif fam == 'ite':
+        t = rng.choice(inner_by_sort['int'])
+        for _ in range(depth):
+            t = f'(ite p {t} 0)' if first else f'(ite p 0 {t})'
+        rel = f'(= {t} x)'
+    elif fam == 'let':
+        t = '(> v0 0)'
+        for i in range(depth):
+            prev = f'v{i + 1}' if i + 1 < depth else rng.choice(
+                inner_by_sort['int'])
+            t = f'(let ((v{i} (+ {prev} 1))) {t})'
+        rel = t
+    elif fam == 'fun':
+        g = rng.choice(['f', 'dbl', 'dbl'])
+        t = rng.choice(inner_by_sort['int'])
+        for _ in range(min(depth, 20)):
+            t = f'({g} {t})'
+        rel = f'(= {t} 0)'
+    elif fam == 'neg':
+        op = rng.choice(['not', 'bvnot', 'bvneg', '-'])
+        t = {'not': 'p', 'bvnot': 'b', 'bvneg': 'b', '-': 'x'}[op]
+        if rng.random() < 0.4:
+            t = 'undeclared'
+        for _ in range(depth):
+            t = f'({op} {t})'
+        rel = {'not': t, 'bvnot': f'(= {t} b)', 'bvneg': f'(= {t} b)',
+               '-': f'(> {t} 0)'}[op]
+    else:  # wide
+        n = rng.choice([30, 60, 120])
+        k = rng.choice(['int', 'bool', 'bv'])
+        op = {'int': '+', 'bool': 'and', 'bv': 'bvadd'}[k]
+        args = [rng.choice(inner_by_sort[k][:3] + ['1' if k == 'int' else
+                                                   inner_by_sort[k][0]])
+                for _ in range(n)]
+        t = f'({op} {" ".join(args)})'
+        rel = {'int': f'(> {t} 0)', 'bool': t, 'bv': f'(= {t} #x00)'}[k]
+    lines = ['(set-logic ALL)'] + rng.sample(decl, rng.randint(6, len(decl)))
+    if 'dbl' in rel and not any('dbl' in d for d in lines):
+        lines.append('(define-fun dbl ((a Int)) Int (+ a a))')
+    lines += [f'(assert {rel})', '(check-sat)']
+    return '\n'.join(lines) + '\n'
+
+
 TRICKY_LITERALS = [
     '"assertion ""x > 0"" failed in iteration 7 of the main loop after 12 times"',
     '"say ""hi"" to all of you and then wait for the answer of everybody else"',
@@ -706,9 +792,24 @@ def gen_lexical(rng):
             '(assert (str.contains (str.++ s {sy}) {li}))',
             '(assert (not (= (str.++ {li} s) (str.++ {sy} {li}))))',
             '(assert (str.prefixof {li} ; comment inside\n (str.++ {sy} s)))',
+            # the first argument is a plain (possibly quoted) symbol: mutators
+            # derive new symbol names from it
+            '(assert (str.contains {sy} {li}))',
         ])
         lines.append(form.format(sy=sy, li=li))
         used += [li] + ([sy] if sy != 's' else [])
+    if rng.random() < 0.5:
+        # a quoted symbol of a bit-vector sort (new names are derived from it
+        # when its bit-width is reduced)
+        bsy = rng.choice(['|b v|', '|a(3)|', '|w;1|', '|bv|'])
+        w = rng.choice([4, 8, 16])
+        lines.append(f'(declare-const {bsy} (_ BitVec {w}))')
+        lines.append(rng.choice([
+            '(assert (= (bvadd {b} (_ bv1 {w})) {b}))',
+            '(assert (bvult {b} (bvnot {b})))',
+            '(assert (= ((_ extract 1 0) {b}) #b01))',
+        ]).format(b=bsy, w=w))
+        used.append(bsy)
     lines.append('(assert (= s s))')
     lines.append('(check-sat)')
     return '\n'.join(lines) + '\n', sorted(set(used))
